@@ -154,7 +154,7 @@ var builtinPrio = map[string]int{"inline": 500, "block": 1000, "para": 100, "ast
 func concretePrio(class string, rank, scale int) int {
 	b := builtinPrio[class]
 	switch scale {
-	case 0:
+	case 0, 3:
 		return b + (rank - 3)
 	case 1:
 		return b + (rank-3)*100000
@@ -182,10 +182,54 @@ func runRegCfg(cf regCfg) (log []string, winner string, out string, err error) {
 	}()
 	pl := &probeLog{}
 	var opts []goldmark.Option
-	for _, name := range cf.Order {
+	// scale 3: the first component is registered from a slice with spare capacity that a second
+	// instance is configured from as well; that instance adds a decoy of the highest precedence
+	// before this one converts anything. Instances share nothing: the decoy must never be seen here.
+	shared := make([]util.PrioritizedValue, 0, 8)
+	var sibling []goldmark.Option
+	decoyPrio := math.MinInt
+	if cf.Class == "render" {
+		decoyPrio = math.MaxInt
+	}
+	for oi, name := range cf.Order {
 		prio := concretePrio(cf.Class, cf.Rank[name], cf.Scale)
 		var popt parser.Option
 		var ropt renderer.Option
+		if cf.Scale == 3 && oi == 0 {
+			dl := &probeLog{}
+			var decoy parser.Option
+			var rdecoy renderer.Option
+			switch cf.Class {
+			case "inline":
+				shared = append(shared, util.Prioritized(&probeInline{name, cf.Accept[name], pl}, prio))
+				popt = parser.WithInlineParsers(shared[:1]...)
+				decoy = parser.WithInlineParsers(util.Prioritized(&probeInline{"decoy", true, dl}, decoyPrio))
+			case "block":
+				shared = append(shared, util.Prioritized(&probeBlock{name, cf.Accept[name], cf.Trig[name], pl}, prio))
+				popt = parser.WithBlockParsers(shared[:1]...)
+				decoy = parser.WithBlockParsers(util.Prioritized(&probeBlock{"decoy", true, true, dl}, decoyPrio))
+			case "para":
+				shared = append(shared, util.Prioritized(&probePara{name, pl}, prio))
+				popt = parser.WithParagraphTransformers(shared[:1]...)
+				decoy = parser.WithParagraphTransformers(util.Prioritized(&probePara{"decoy", pl}, decoyPrio))
+			case "ast":
+				shared = append(shared, util.Prioritized(&probeAST{name, pl}, prio))
+				popt = parser.WithASTTransformers(shared[:1]...)
+				decoy = parser.WithASTTransformers(util.Prioritized(&probeAST{"decoy", pl}, decoyPrio))
+			case "render":
+				shared = append(shared, util.Prioritized(&probeRenderer{name}, prio))
+				ropt = renderer.WithNodeRenderers(shared[:1]...)
+				rdecoy = renderer.WithNodeRenderers(util.Prioritized(&probeRenderer{"decoy"}, decoyPrio))
+			}
+			if popt != nil {
+				opts = append(opts, goldmark.WithParserOptions(popt))
+				sibling = append(sibling, goldmark.WithParserOptions(popt), goldmark.WithParserOptions(decoy))
+			} else {
+				opts = append(opts, goldmark.WithRendererOptions(ropt))
+				sibling = append(sibling, goldmark.WithRendererOptions(ropt), goldmark.WithRendererOptions(rdecoy))
+			}
+			continue
+		}
 		switch cf.Class {
 		case "inline":
 			popt = parser.WithInlineParsers(util.Prioritized(&probeInline{name, cf.Accept[name], pl}, prio))
@@ -217,6 +261,9 @@ func runRegCfg(cf regCfg) (log []string, winner string, out string, err error) {
 	}
 	opts = append(opts, goldmark.WithRendererOptions(renderer.WithNodeRenderers(util.Prioritized(probeBlockRenderer{}, 7777))))
 	md := goldmark.New(opts...)
+	if cf.Scale == 3 {
+		_ = goldmark.New(sibling...) // configured after md, before md's first conversion
+	}
 	doc := map[string]string{"inline": "*a\n", "block": "@x\n", "para": "x\n", "ast": "x\n", "render": "---\n"}[cf.Class]
 	var buf bytes.Buffer
 	if e := md.Convert([]byte(doc), &buf); e != nil {
@@ -444,6 +491,9 @@ func runC20(c *Ctx) {
 			scales := []int{0, 1, 2}
 			if class == "block" && !c.Thorough() {
 				scales = []int{(i + int(c.Seed)) % 3}
+			}
+			if len(cf.Order) >= 2 && (c.Thorough() || i%2 == 0) {
+				scales = append(scales, 3)
 			}
 			for _, sc := range scales {
 				cf.Scale = sc
